@@ -44,7 +44,15 @@ def malformed(maxlen, rng, extra=200):
             s = "".join(t)
             if not is_name(s):
                 yield s
-    pool = "abcdefgABCDEFGH#b♯♭0123456789 -_/|xXé中"
+    # near misses: a valid name with one foreign character glued on, in front, behind or inside (line ends, blanks and NUL
+    # are what anchored regular expressions, strip() and C-string habits let through)
+    for nm in ("C", "C#", "Bb", "F##", "Abb", "G#b"):
+        for ch in ("\n", "\r", "\t", " ", "\x00", "\x0b", "\u00a0", "\u2028", "♯", "♭", "n", "-4", "\n\n", "\r\n"):
+            for s in (nm + ch, ch + nm, nm[0] + ch + nm[1:], nm.lower()):
+                if not is_name(s) and s not in seen:
+                    seen.add(s)
+                    yield s
+    pool = "abcdefgABCDEFGH#b♯♭0123456789 -_/|xXé中\n\t"
     for _ in range(extra):
         n = rng.randint(1, 6)
         s = "".join(rng.choice(pool) for _ in range(n))
